@@ -12,7 +12,7 @@ LEVEL = "exploration"
 TECHNIQUE = "bounded-exhaustive enumeration of every input sequence (all multisets in all orders) over a colliding-key record alphabet through run_sort, against a stable-sort reference"
 RULE = (
     "graphs: a two-chromosome bubble chain tagged (i) by the real order_gfa (pipeline composition) and (ii) by the harness with an extra "
-    "node carrying BO=NO=-1; records: a 15/16-record alphabet whose keys collide pairwise in every prefix of (BO, NO, start) - equal BO / "
+    "node carrying BO=NO=-1; records: a 17/18-record alphabet (strands + and -) whose keys collide pairwise in every prefix of (BO, NO, start) - equal BO / "
     "different NO, equal (BO,NO) / different start, exact ties, a reverse-anchored record tying with a forward one, one untagged key, a "
     "second chromosome; inputs: every sequence of <=N records (N=4 quick, 5 thorough), i.e. every multiset in every order. "
     "evaluations = sort runs; non-trivial = sequences of >=2 records that are not already in sorted order or contain a tie."
@@ -33,7 +33,11 @@ NSHARD = {"quick": 16, "thorough": 48}
 
 
 def bounds(tier):
-    return {"max_records_per_file": 4 if tier == "quick" else 5, "alphabet": 16, "graphs": 2}
+    return {"max_records_per_file": 4 if tier == "quick" else 5, "alphabet": 18, "graphs": 2}
+
+
+# the strand column (the read's strand) has no part in the sort key; some records carry '-'
+STRAND = {"B": "-", "D": "-", "G": "-", "L": "-", "J": "-"}
 
 
 def alphabet(g, c1, c2, untagged):
@@ -56,6 +60,9 @@ def alphabet(g, c1, c2, untagged):
         ("K", f">{s1}>{a}", 10, 12),
         ("L", f">{s2}<{sc1[2]}", 1, 3),  # as many scaffold nodes forward as reversed: anchored on the first node
         ("M", f">{sc1[2]}", 0, 2),  # sits between the two possible anchors of L
+        # exact key ties with E and F that differ in the derived tags: Q has sn 'unknown' (no reference node), Y has iv 1
+        ("Q", f">{b}", 1, 2),
+        ("Y", f">{b}>{s2}<{sc1[2]}", 1, 3),
         # three scaffold nodes, the first one in the minority orientation: anchored on the LAST node (majority reversed)
         ("O", f">{sc1[1]}<{sc1[3]}<{sc1[2]}", 0, g.segs[sc1[1]].LN + g.segs[sc1[3]].LN + g.segs[sc1[2]].LN - 1),
     ]
@@ -98,7 +105,7 @@ def large_file(res, scratch, tier, nrec):
     recs = []
     for pos in range(nrec):
         name, path, ps, pe = alpha[(pos * 7 + pos // len(alpha)) % len(alpha)]
-        recs.append(sc.rec_on(g, f"{name}.{pos}", path, ps, pe))
+        recs.append(sc.rec_on(g, f"{name}.{pos}", path, ps, pe, strand=STRAND.get(name, "+")))
     gaf = os.path.join(scratch, "large.gaf")
     fw.write_text(gaf, "".join(r.line() + "\n" for r in recs))
     out = sc.run_sort(scratch, gfa_path, gaf)
@@ -121,7 +128,7 @@ def judge_file(res, scratch, gname, g, gfa_path, seq, alpha):
     recs = []
     for pos, ai in enumerate(seq):
         name, path, ps, pe = alpha[ai]
-        recs.append(sc.rec_on(g, f"{name}.{pos}", path, ps, pe))
+        recs.append(sc.rec_on(g, f"{name}.{pos}", path, ps, pe, strand=STRAND.get(name, "+")))
     text = "".join(r.line() + "\n" for r in recs)
     gaf = os.path.join(scratch, "in.gaf")
     fw.write_text(gaf, text)
@@ -170,7 +177,7 @@ def run_shard(spec, tier, scratch):
     for gname, g, alpha in gs:
         gfa_path = os.path.join(scratch, gname + ".gfa")
         # the hand-tagged graph is written with its L lines first and its S lines in reverse order
-        fw.write_text(gfa_path, g.text() if gname == "pipeline" else "".join(l.line() + "\n" for l in g.links) + "".join(x.line() + "\n" for x in reversed(list(g.segs.values()))))
+        fw.write_text(gfa_path, g.text() if gname == "pipeline" else ("".join(l.line() + "\n" for l in g.links) + "".join(x.line() + "\n" for x in reversed(list(g.segs.values()))))[:-1])  # and no newline after its last line
         for k in range(1, maxn + 1):
             for seq in itertools.product(range(len(alpha)), repeat=k):
                 n += 1
@@ -179,7 +186,7 @@ def run_shard(spec, tier, scratch):
                 judge_file(res, scratch, gname, g, gfa_path, list(seq), alpha)
         # what the next graph's sort calls are preceded by in this process
         name0, path0, ps0, pe0 = alpha[0]
-        HISTORY["prev"] = {"gfa": open(gfa_path).read(), "records": [sc.rec_on(g, f"{a[0]}.0", a[1], a[2], a[3]).line() for a in alpha]}
+        HISTORY["prev"] = {"gfa": open(gfa_path).read(), "records": [sc.rec_on(g, f"{a[0]}.0", a[1], a[2], a[3], strand=STRAND.get(a[0], "+")).line() for a in alpha]}
         if spec["shard"] == 0:
             res.sample({"graph": gname, "alphabet": [{"name": a[0], "path": a[1], "start": a[2], "end": a[3], "key": sc.sort_key(g, sc.rec_on(g, a[0], a[1], a[2], a[3]))} for a in alpha]})
     return res
